@@ -14,7 +14,11 @@ for L in "$@"; do
   pkg=$(grep -m1 "^package " $demo | tr -d '\r' | awk '{print $2}' | sed 's/_test$//')
   [ -d "$S/repo/$pkg" ] || pkg=$(grep -o "\./[a-z]*/" $src/$id/NOTES.md | head -1 | tr -d './')
   tests=$(grep -o "^func Test[A-Za-z0-9_]*" $demo | sed 's/func //' | paste -sd'|')
-  put() { cp $demo $S/repo/$pkg/zz_demo${L}_test.go; for extra in $src/$id/*harness*_test.go; do [ -f "$extra" ] && cp $extra $S/repo/$pkg/; done; }
+  pkgline=$(grep -m1 "^package " $demo | tr -d '\r')
+  # helper files belong to one demonstration package each: copy those whose package clause matches; a helper
+  # named after the other letter (demoD_harness for C) is left out
+  helpers() { for extra in $src/$id/*harness*_test.go; do [ -f "$extra" ] || continue; [ "$(grep -m1 '^package ' $extra | tr -d '\r')" = "$pkgline" ] || continue; case "$(basename $extra)" in demo[A-Z]_*) [ "$(basename $extra | cut -c5)" = "$L" ] || continue;; esac; echo $extra; done; }
+  put() { cp $demo $S/repo/$pkg/zz_demo${L}_test.go; for extra in $(helpers); do cp $extra $S/repo/$pkg/; done; }
   run() { (cd $S/repo && timeout 900 unshare -n sh -c "ip link set lo up; go1.26.8 test -vet=off -count=1 -run '^($tests)\$' ./$pkg/" > $S/demo.log 2>&1); echo $?; }
   put; clean=$(run)
   (cd $S/repo && git apply --whitespace=nowarn $d) || { echo "$id $L apply-failed"; rm -rf $S; continue; }
@@ -25,10 +29,10 @@ for L in "$@"; do
   if [ "$clean" = 0 ] && [ "$suite" = 0 ] && [ "$mut" != 0 ]; then
     out=/verif/seeded/$id-$L; mkdir -p $out
     cp $d $out/patch.diff; cp $demo $out/demo_test.go; cp $src/$id/NOTES.md $out/NOTES_from_author.md
-    for extra in $src/$id/*harness*_test.go; do [ -f "$extra" ] && cp $extra $out/; done
+    for extra in $(helpers); do cp $extra $out/; done
     echo "$clean $suite $mut $pkg $tests" > $out/.confirm
   else
-    echo "$id $L NOT CONFIRMED (kept out of seeded/)"; tail -5 $S/demo.log $S/suite.log | cut -c1-200
+    echo "$id $L NOT CONFIRMED (kept out of seeded/)"; tail -n 5 $S/demo.log $S/suite.log | cut -c1-200
   fi
   rm -rf $S
 done
